@@ -177,7 +177,7 @@ def check(repo):
     cs_calls = [(c, nid, t) for c, nid, t in qh.calls_to("create_service")]
     ok_hs = bool(cs_calls)
     for c, nid, t in cs_calls:
-        a0 = qh.arg(c, nid, 0)
+        a0 = qh.arg(c, nid, 0, kw="sid")
         if a0 not in (("sub", EVENT, ("const", K_SID)), ("mcall", EVENT, "get", (("const", K_SID),), ())):
             ok_hs = False
         typed = any(f[0] == "==" and f[-1] is True and {f[1], f[2]} == {("const", T_INIT), ("sub", EVENT, ("const", K_TYPE))} for f in qh.facts_terms(nid)) or \
